@@ -45,9 +45,9 @@ def run(ctx):
         vlib.report(ctx, key, '%s: %s on %s when only the signature bits change ([%s] vs [%s]); %d such events' % (
             r['lint'], r['why'], obj, r['info'], r['event']['tag'], len(rs)), dict(kind='sig', obj=obj, lint=r['lint'], why=r['why']))
     cov = dict(evaluations=s['lint_calls'], distinct_nontrivial=s['bases_nontrivial'],
-               rule='evaluation = one full-registry lint of a signature variant (zero, ones, single-bit flips first/middle/last, ECDSA-shaped, seeded random) of a non-self-issued corpus certificate; '
+               rule='evaluation = one full-registry lint of a signature variant (zero, ones, single-bit flips first/middle/last, ECDSA-shaped, seeded random) of a non-self-issued corpus certificate - also under a configuration whose string options hold the identifiers (digests, serial number) of the certificate, when a lint has such an option; '
                     'non-trivial = distinct base certificates with a non-NA verdict that were re-signed',
-               samples=[s['sample']], variants=s['variants'], self_issued_skipped=s['self_issued_skipped'],
+               samples=[s['sample']], variants=s['variants'], self_issued_skipped=s['self_issued_skipped'], identifier_configurations=s.get('identifier_configurations', 0),
                trusted_base=['zcrypto parser (sets SelfSigned only for self-issued certificates)'])
     return vlib.finish(ctx, 'model_checking', cov, ASSUME)
 
